@@ -50,10 +50,10 @@ LimitKept(r, o0, s0, s1, tol) ==
   WellFormed(r) => /\ (s1[1] = s0[1] \/ (r.blx - tol <= o0[1] + s1[1] /\ o0[1] + s1[1] <= r.trx + tol))
                    /\ (s1[2] = s0[2] \/ (r.bly - tol <= o0[2] + s1[2] /\ o0[2] + s1[2] <= r.try + tol))
 
-\* "within reach of its limit rectangle": the neighbour's bounding box meets the limit rectangle placed at the
-\* glyph's anchor (anchor = origin - offset; nb is given relative to the origin)
-InReach(nbb, r, o0) == /\ nbb.xa + o0[1] >= r.blx /\ nbb.xi + o0[1] <= r.trx
-                       /\ nbb.ya + o0[2] >= r.bly /\ nbb.yi + o0[2] <= r.try
+\* "within reach of its limit rectangle": the neighbour's bounding box lies in the column or in the row of the limit
+\* rectangle placed at the glyph's anchor (anchor = origin - offset; nb is given relative to the origin)
+InReach(nbb, r, o0) == \/ (nbb.xa + o0[1] >= r.blx /\ nbb.xi + o0[1] <= r.trx)
+                       \/ (nbb.ya + o0[2] >= r.bly /\ nbb.yi + o0[2] <= r.try)
 
 \* second clause, for one neighbour given by its bounding octabox and its sub-octaboxes (all relative to the
 \* target's origin, own shift included)
